@@ -21,6 +21,17 @@ class Crate(object):
                 return i
         raise Anchor("type %s not found in facts of %s" % (s, self.name))
 
+    def ty_of_adt(self, path):
+        """type id of the ADT itself (identity generic arguments for generic ADTs)"""
+        cands = []
+        for i, t in enumerate(self.tys):
+            if t["k"] == "adt" and t["def"] == path:
+                if all(self.tys[a]["k"] == "param" for a in t["targs"]):
+                    cands.append(i)
+        if not cands:
+            raise Anchor("type %s not found in facts of %s" % (path, self.name))
+        return cands[0]
+
     def adt(self, path):
         for a in self.facts["adts"]:
             if a["path"] == path:
@@ -94,3 +105,61 @@ def flat_leaves(v, out=None):
 
 def where(body):
     return body["span"][0]
+
+
+def ref_ty(ev, pointee, mut=True):
+    for i, t in enumerate(ev.tys):
+        if t["k"] == "ref" and t["to"] == pointee and t["mut"] == mut:
+            return i
+    return None
+
+
+def ty_id(ev, s):
+    for i, t in enumerate(ev.tys):
+        if t["s"] == s:
+            return i
+    return None
+
+
+def synth_call(ev, st, key, args, argtys, dest_ty, unresolved=False):
+    """apply the opaque-call construction of the evaluator to `key` (used to build expected terms)"""
+    from .evalmir import CallCtx
+    callee = {"rpath": key, "path": key, "res": None if unresolved else key, "why": "unresolved" if unresolved else "no-inline"}
+    ctx = CallCtx(callee, list(args), list(argtys), dest_ty, ["synthetic", "synthetic", False], None)
+    return ev.P.opaque_call(ev, st, ctx, "synthetic")
+
+
+def sym_slice(ev, st, name="dest", w=8):
+    """&mut [u8] of unknown length"""
+    arr = ArrV(1 << 62, w, None, T.arr_sym(name, None, w), {})
+    oid = st.alloc(arr, name)
+    return Ref(oid, (), (0, T.sym(name + ".len", 64)), True), oid
+
+
+def same_value(a, b):
+    """structural identity of two evaluator values (terms by identity)"""
+    if a is b:
+        return True
+    if isinstance(a, T.T) or isinstance(b, T.T):
+        return a is b
+    if isinstance(a, Struct) and isinstance(b, Struct):
+        return len(a.fields) == len(b.fields) and all(same_value(x, y) for x, y in zip(a.fields, b.fields))
+    if isinstance(a, ArrV) and isinstance(b, ArrV):
+        if a.n != b.n:
+            return False
+        if a.n <= 4096 and a.base is None and b.base is None:
+            return all(same_value(a.get(i), b.get(i)) for i in range(a.n))
+        if a.w is not None and b.w is not None:
+            return a.to_term() is b.to_term()
+        return False
+    if isinstance(a, EnumV) and isinstance(b, EnumV):
+        da = a.discr if isinstance(a.discr, int) else a.discr
+        if (a.discr is not b.discr) and a.discr != b.discr:
+            return False
+        return set(a.payloads) == set(b.payloads) and all(
+            len(a.payloads[k]) == len(b.payloads[k]) and all(same_value(x, y) for x, y in zip(a.payloads[k], b.payloads[k])) for k in a.payloads)
+    if isinstance(a, Ref) and isinstance(b, Ref):
+        return a.same(b)
+    if isinstance(a, OpaqueV) and isinstance(b, OpaqueV):
+        return a.token == b.token
+    return False
